@@ -275,6 +275,11 @@ func frozenPass(s *subject) (v *hx.Violation) {
 	return nil
 }
 
+func nGlobals() int {
+	syms, _ := hx.LibraryGlobals()
+	return len(syms)
+}
+
 func gonnxFrames(stack string) string {
 	var keep []string
 	for _, l := range strings.Split(stack, " | ") {
@@ -373,6 +378,138 @@ func init() {
 	}
 }
 
+// loadStress: goroutines concurrently load the model and run it; every result must equal the solo result
+// ("loading further models concurrently does not disturb them").
+func loadStress(s *subject, goroutines, rounds int) *hx.Violation {
+	mk := func(kind, detail string) *hx.Violation {
+		return &hx.Violation{Kind: kind, Detail: detail, Replay: map[string]any{"replay_kind": "stress", "subject": s.Name}}
+	}
+	var wg sync.WaitGroup
+	var mu sync.Mutex
+	var first *hx.Violation
+	start := make(chan struct{})
+	for g := 0; g < goroutines; g++ {
+		wg.Add(1)
+		go func(g int) {
+			defer wg.Done()
+			defer func() {
+				if p := recover(); p != nil {
+					mu.Lock()
+					if first == nil {
+						first = mk("panic", fmt.Sprintf("goroutine %d panicked while loading/running concurrently: %v", g, p))
+					}
+					mu.Unlock()
+				}
+			}()
+			<-start
+			for r := 0; r < rounds; r++ {
+				m, err := gonnx.NewModelFromBytes(s.Model)
+				bad := ""
+				if err != nil {
+					bad = "concurrent load failed: " + err.Error()
+				} else {
+					feed := gonnx.Tensors{}
+					for k, t := range s.FeedA {
+						feed[k] = hx.ToG(t)
+					}
+					outs, err := m.Run(feed)
+					if err != nil {
+						bad = "Run on a concurrently loaded model failed: " + err.Error()
+					} else {
+						for _, o := range s.Outs {
+							got, e := hx.FromG(outs[o])
+							if e != nil || got == nil {
+								bad = "output " + o + " nil/unreadable"
+								break
+							}
+							if k, d := hx.CompareT(got, s.expA[o], s.cmp); k != "" {
+								bad = fmt.Sprintf("output %q of a concurrently loaded model differs from the solo result: %s", o, d)
+								break
+							}
+						}
+					}
+				}
+				if bad != "" {
+					mu.Lock()
+					if first == nil {
+						first = mk("concurrent-interference", fmt.Sprintf("goroutine %d round %d of %d goroutines loading + running concurrently: %s", g, r, goroutines, bad))
+					}
+					mu.Unlock()
+					return
+				}
+			}
+		}(g)
+	}
+	close(start)
+	wg.Wait()
+	return first
+}
+
+func globalStatePass(c *hx.Checker, expl []*subject) {
+	if _, err := hx.LibraryGlobals(); err != nil {
+		c.Extra["global_state_pass"] = "skipped: " + err.Error()
+		return
+	}
+	runOnce := func(s *subject) {
+		defer func() { recover() }()
+		m, err := gonnx.NewModelFromBytes(s.Model)
+		if err != nil {
+			return
+		}
+		for _, f := range []map[string]*ref.T{s.FeedA, s.FeedB} {
+			feed := gonnx.Tensors{}
+			for k, t := range f {
+				feed[k] = hx.ToG(t)
+			}
+			m.Run(feed)
+		}
+	}
+	// no warm-up: compiler/runtime caches and the lazily built protobuf descriptor are excluded by name, so on a
+	// tree without package-level scratch state nothing changes from the very first load on
+	syms, _ := hx.LibraryGlobals()
+	c.Extra["library_globals_watched"] = len(syms)
+	base := hx.GlobalsDigest()
+	type hit struct {
+		s    *subject
+		syms []string
+	}
+	var hits []hit
+	for _, s := range expl {
+		runOnce(s)
+		now := hx.GlobalsDigest()
+		if d := hx.GlobalsDiff(base, now); len(d) > 0 {
+			hits = append(hits, hit{s, d})
+			base = now
+		}
+		c.Note(hx.CaseInfo{ID: "globals/" + s.Name, Tags: []string{"global-state"}, NonTrivial: true}, "ok:globals-checked", nil)
+	}
+	var unconfirmed []string
+	for _, h := range hits {
+		h := h
+		id := "globals-confirm/" + h.s.Name
+		info := hx.CaseInfo{ID: id, Tags: []string{"global-state", "op=" + h.s.Name}, NonTrivial: true}
+		var found *hx.Violation
+		for _, f := range []func() *hx.Violation{func() *hx.Violation { return stressPass(h.s, 16, 150) }, func() *hx.Violation { return loadStress(h.s, 16, 60) }} {
+			if v := f(); v != nil {
+				v.Kind = "global-state-race"
+				v.Detail = fmt.Sprintf("loading/running this model writes the library's package-level variables %v, and concurrent use is disturbed by it: %s", h.syms, v.Detail)
+				found = v
+				break
+			}
+		}
+		if found != nil {
+			// the confirmation is a free-running (sampled) pass: it is not re-executed; a confirmed interference is real
+			c.Note(info, found.Kind, found)
+		} else {
+			c.Note(info, "ok:global-write-unconfirmed", nil)
+			unconfirmed = append(unconfirmed, fmt.Sprintf("%s: %v", h.s.Name, h.syms))
+		}
+	}
+	if len(unconfirmed) > 0 {
+		c.Extra["global_writes_not_confirmed_as_interference"] = unconfirmed
+	}
+}
+
 func exploreSubjects(all []*subject) []*subject {
 	var out []*subject
 	seen := map[string]bool{}
@@ -432,10 +569,15 @@ func checkC17(c *hx.Checker) {
 	}
 	c.Rule = fmt.Sprintf("(1) frozen-state pass on %d subjects (every registered operator under every caller-input / initializer role assignment, the compositions, the sample models): weight tensors (header, shape, strides, data) and every repeated scalar field of the model proto are relocated into an mmap arena and mprotect'ed read-only; Run(A), Run(B), Run(A) must complete without a write fault and with the reference outputs. "+
 		"(2) interleaving exploration on %d subjects (per operator the role assignment with the most shared weights; compositions; mlp, scaler, gru): cooperative scheduler with scheduling points at thread start, before GetOperator / Init / ValidateInputs / Apply of every node, between consecutive Runs and at thread end; depth-first enumeration of ALL schedules with <= %d preemptions for 2 threads {Run(A);Run(B)} || {Run(B)} and <= %d preemptions for 3 threads (+ {NewModelFromBytes; Run(A)} on a further model); every thread's outputs must equal the solo result and the shared-state digest must equal the load-time digest after every step. "+
-		"(3) supplementary free-running pass: 16 goroutines x 30 Runs on one shared Model per exploration subject, results compared with the solo result (thorough: the same bodies in a separately built -race binary). "+
-		"states = scheduling points visited, transitions = thread steps executed; non-trivial = every exploration and frozen case", len(subs), len(expl), b2, b3)
+		"(3) supplementary free-running passes: 16 goroutines x 30 Runs on one shared Model, and 8 goroutines x 10 rounds of NewModelFromBytes+Run, per exploration subject, results compared with the solo result (thorough: the same bodies in a separately built -race binary). "+
+		"(0) global-state pass: the bytes of every writable package-level symbol of the library inside the check binary (ELF symbol table; %d symbols) are hashed before/after load+Run of every exploration subject (no warm-up: runtime caches and the protobuf descriptor are excluded by name); a change is escalated to 16x150 Runs + 16x60 loads and reported only if interference is confirmed. "+
+		"states = scheduling points visited, transitions = thread steps executed; non-trivial = every exploration and frozen case", len(subs), len(expl), b2, b3, nGlobals())
 	c.Assumptions = []string{"scheduling points are at operator-phase granularity (no hook inside gonnx is needed: Model.GetOperator is an exported field); interleavings inside one phase are covered only for Model-owned state (write trap) and by the supplementary free-running passes",
 		"the Go memory model's weak behaviours are not modelled (irrelevant once no shared write exists)", "a fault inside a goroutine spawned by gorgonia cannot be recovered and would abort the check process (reported by run.sh as a failure)"}
+	// (0) global-state pass (sequential, before any parallel phase): after a warm-up, loading and running a
+	// model must not change any package-level variable of the library. A change is an *indicator* (it may be
+	// legitimately synchronised); it becomes a violation only when the free-running passes confirm interference.
+	globalStatePass(c, expl)
 	// (1) frozen pass
 	c.ParallelFor(len(subs), func(i int) {
 		s := subs[i]
@@ -509,12 +651,17 @@ func checkC17(c *hx.Checker) {
 	// (3) free-running pass
 	c.ParallelFor(len(expl), func(i int) {
 		s := expl[i]
-		c.Case(hx.CaseInfo{ID: "stress/" + s.Name, Tags: append([]string{"stress"}, s.Tags...), NonTrivial: true}, func() *hx.Violation {
-			if v := stressPass(s, 16, 30); v != nil {
-				return v
-			}
-			return hx.OK("stress-clean")
-		})
+		info := hx.CaseInfo{ID: "stress/" + s.Name, Tags: append([]string{"stress"}, s.Tags...), NonTrivial: true}
+		// free-running (sampled) pass: not re-executed; an observed interference is real
+		if v := stressPass(s, 16, 30); v != nil {
+			c.Note(info, v.Kind, v)
+			return
+		}
+		if v := loadStress(s, 8, 10); v != nil {
+			c.Note(info, v.Kind, v)
+			return
+		}
+		c.Note(info, "ok:stress-clean", nil)
 	})
 	if thorough {
 		racePass(c)
@@ -535,7 +682,7 @@ func racePass(c *hx.Checker) {
 	n := strings.Count(text, "WARNING: DATA RACE")
 	c.Extra["race_pass"] = fmt.Sprintf("ran, exit=%v, race reports=%d", err, n)
 	if n == 0 {
-		c.Record(hx.CaseInfo{ID: "race/free-running", Tags: []string{"race"}, NonTrivial: true}, "ok:race-clean", nil)
+		c.Note(hx.CaseInfo{ID: "race/free-running", Tags: []string{"race"}, NonTrivial: true}, "ok:race-clean", nil)
 		return
 	}
 	// keep only reports whose stacks touch gonnx code
@@ -545,7 +692,7 @@ func racePass(c *hx.Checker) {
 		if !strings.Contains(r, "advancedclimatesystems/gonnx") {
 			continue
 		}
-		c.Record(hx.CaseInfo{ID: fmt.Sprintf("race/report-%d", i), Tags: []string{"race"}, NonTrivial: true}, "data-race",
+		c.Note(hx.CaseInfo{ID: fmt.Sprintf("race/report-%d", i), Tags: []string{"race"}, NonTrivial: true}, "data-race",
 			&hx.Violation{Kind: "data-race", Detail: "race detector report with gonnx frames: " + truncateS(strings.Join(strings.Fields(r), " "), 1500), Replay: map[string]any{"replay_kind": "stress", "subject": "sample:mlp"}})
 		return
 	}
